@@ -77,6 +77,44 @@ def sig(c, what, extra=None):
     return s
 
 
+def real_jobs(chk, variant):
+    """The assembly jobs FEAT ships, executed by worker threads, against their sequential meaning (c17_realjobs.cpp)."""
+    rb, = vlib.build(["c17_realjobs"], variant=variant)
+    quick = chk.tier == "quick"
+    cases = []
+    for level in ((3, 5) if quick else (2, 3, 5, 6)):
+        for strat in ("layered", "layered_sorted", "colored", "automatic"):
+            for maxw in ((2, 4, 7) if quick else (1, 2, 3, 4, 6, 9, 16)):
+                cases.append({"level": level, "strategy": strat, "maxw": maxw, "reps": 3 if quick else 6})
+    res = vlib.run_cases(rb, cases, tmo=300, shards=4, max_abnormal=4)
+    njobs = 0
+    for c, rr in zip(cases, res):
+        chk.count("realjobs " + json.dumps(c, sort_keys=True), (rr.get("W") or 0) >= 2)
+        njobs += rr.get("jobs") or 0
+        if rr.get("outcome") or rr.get("ok") is not True:
+            chk.violation({"what": "realjobs", "job": rr.get("job"), "strategy": c["strategy"], "outcome": rr.get("outcome", "mismatch")},
+                          "FEAT assembly job under worker threads: %s" % (rr.get("why") or rr.get("stderr") or rr.get("outcome") or "")[:700],
+                          {"kind": "case", "harness": "c17_realjobs", "case": c, "result": rr})
+    chk.extra["real_job_runs"] = len(cases)
+    chk.extra["real_job_executions_compared"] = njobs
+    if variant == "std":
+        try:
+            tb, = vlib.build(["c17_realjobs"], variant="tsan")
+        except vlib.MachineryError as e:
+            chk.extra["real_job_tsan_runs"] = "unavailable: %s" % str(e)[:200]
+            return
+        tcases = [{"level": lv, "strategy": st, "maxw": mw, "reps": 1} for lv in ((3,) if quick else (2, 4))
+                  for st in ("layered", "colored") for mw in ((3,) if quick else (2, 3, 5))]
+        tres = vlib.run_cases(tb, tcases, tmo=300, shards=4, max_abnormal=4, env={"TSAN_OPTIONS": "halt_on_error=1 exitcode=66"})
+        for c, rr in zip(tcases, tres):
+            chk.count("realjobs/tsan " + json.dumps(c, sort_keys=True), (rr.get("W") or 0) >= 2)
+            if rr.get("outcome") or rr.get("ok") is not True:
+                chk.violation({"what": "realjobs/tsan", "job": rr.get("job"), "strategy": c["strategy"], "outcome": rr.get("outcome", "mismatch")},
+                              "FEAT assembly job under ThreadSanitizer: %s %s" % (rr.get("outcome"), (rr.get("stderr") or rr.get("why") or "")[:900]),
+                              {"kind": "case", "harness": "c17_realjobs(tsan)", "case": c, "result": rr})
+        chk.extra["real_job_tsan_runs"] = len(tcases)
+
+
 def run(chk, variant="std"):
     binary, = vlib.build(["c17_threads"], variant=variant)
     model_check(chk)
@@ -156,6 +194,7 @@ def run(chk, variant="std"):
                        "schedules of the real threads are sampled (perturbed by seeded yields/sleeps), all interleavings only in the model",
                        "the job used for observation scatters integer contributions into per-vertex slots (vertex-adjacent cells collide)"]
     shutil.rmtree(tdir, ignore_errors=True)
+    real_jobs(chk, variant)
     if chk.tier == "thorough" and variant == "std":
         # the same runs under ThreadSanitizer (no OpenMP): physical data races are reported as outcome 'sanitizer'
         try:
